@@ -6,7 +6,7 @@ CONSTANTS
   TRows <- StochT
   ERows <- QE
   IRows <- QI
-  EndRows <- QEnd
+  EndRows <- QEnd2
 SPECIFICATION Spec
 INVARIANTS TypeOK DefinitionsAgree VitMeaning FwdMeaning BwdMeaning VitResult FwdResult BwdResult Final NoStall
 PROPERTY Progress
